@@ -757,7 +757,7 @@ class Gen:
         tgt = self.choice(hs)
         self._cow(tgt)
         g = self.t[tgt]
-        if self.coin(0.6):
+        if self.coin(0.6) or g.val.ndim == 0:
             k = self.choice([1, -1, 2])
             g.val += k
             self.emit({"k": "inplace", "form": "iadd", "tgt": tgt, "args": [{"c": k}]})
